@@ -238,7 +238,7 @@ P("C11", ["R16", "R17", "R12", "R07", "R40", "R41", "R69"],
   "and a month of 30 days.",
   "associativity/identity laws over float components.", [], [])
 
-P("C12", ["R18", "R19", "R04", "R07", "R75"],
+P("C12", ["R18", "R19", "R04", "R07", "R75", "R61"],
   "finite-domain abstract interpretation of the recurrence constructor and "
   "__iter__",
   "R18 for each of the 13 reachable abstract post-states of the "
@@ -417,7 +417,7 @@ CORE_RULES = ("R04", "R05", "R06", "R07", "R08", "R09", "R10", "R11", "R12",
               # (sixth round) operand mutation, the duration and year-range
               # text tables, and the rules added with that round
               "R01", "R02", "R03", "R27", "R54", "R65", "R66", "R69", "R70", "R71", "R72",
-              "R76", "R77", "R79")
+              "R76", "R77", "R79", "R80")
 
 ENTRY_POINTS = {
     "C01": ["data.TimePoint.__add__", "data.TimePoint.__radd__"],
@@ -624,6 +624,38 @@ _ROUND8 = {
            "known zone (the unknown zone of a truncated point is not UTC).",
 }
 for _pid, _t in _ROUND8.items():
+    _e = PROPS[_pid]["explanation"]
+    assert " Does not decide:" in _e, _pid
+    PROPS[_pid]["explanation"] = _e.replace(
+        " Does not decide:", " " + _t + " Does not decide:", 1)
+
+_ROUND9 = {
+    "C01": "R39 the week count of a year is counted from the active "
+           "calendar's year lengths (no constant, no min/max clamp), and no "
+           "function measures with the common-year constant alone.",
+    "C04": "R80 nothing in the value classes, parsers or dumpers rounds a "
+           "value or compares with a tolerance.",
+    "C05": "R08 zone conversions in TimePoint.__add__ belong to the "
+           "truncated-point branch: months and years are stepped on the "
+           "date in the point's own offset.",
+    "C07": "R38 the sign of a minute number is never decided by testing "
+           "the value of the hour number (-00:30).",
+    "C09": "R20 no int() of a float read from the text outside a handler "
+           "for OverflowError.",
+    "C10": "R26 the designator search tries the whole DURATION_REGEXES "
+           "table for every expression.",
+    "C11": "R08 Duration - Duration is returned as self + (-1 * other), "
+           "untouched.",
+    "C16": "R01 a store into an object that sits in a slot of a value "
+           "object (x._zone._hours = ...) is a store into a shared object: "
+           "copies are shallow.",
+    "C18": "R44 the epoch count printed is int(86400 * days + seconds) of "
+           "the difference on every path, and the count added by the "
+           "inverse is unrounded.",
+    "C19": "R30 no argument is split at a character the ISO 8601 notations "
+           "use themselves.",
+}
+for _pid, _t in _ROUND9.items():
     _e = PROPS[_pid]["explanation"]
     assert " Does not decide:" in _e, _pid
     PROPS[_pid]["explanation"] = _e.replace(
